@@ -169,6 +169,12 @@ def run(case: dict, ctx) -> dict:
     control = case["vi"] < 0
     value = CONTROL_VALUES.get(gate, [None])[-1 - case["vi"]] if control else table[gate][case["vi"]]
     r2 = rng_for(ctx.seed, ID, gate, case["vi"])
+    if not control:
+        # the valid twin is opened first in this very process: a refusal must not depend on the foreign input being the
+        # first thing the process ever parsed (state shared between objects would let the earlier tables answer)
+        cv = CONTROL_VALUES.get(gate, [None])
+        warm = _apply(gate, cv[case["vi"] % len(cv)], True, ctx, rng_for(ctx.seed, ID, gate, "warm", case["vi"]))
+        cnt["valid_twin_opened_first"] = int(warm.ok)
     o = _apply(gate, value, control, ctx, r2)
     if control:
         cnt["positive_controls"] = 1
@@ -284,7 +290,9 @@ def _apply(gate: str, value, control: bool, ctx, rng):
                 for i in range(2):
                     o_ = rb + 16 + 32 * i
                     if bytes(raw[o_ : o_ + 16]) == want:
+                        # the entry becomes a region of unknown type that is not required: the wanted region is simply absent
                         raw[o_] ^= 0xFF
+                        struct.pack_into("<I", raw, o_ + 28, 0)
         elif what == "missing-item" and not control:
             mo = 2 * MBb
             req = [wvhdx.FILE_PARAMETERS, wvhdx.VIRTUAL_DISK_SIZE, wvhdx.LOGICAL_SECTOR_SIZE, wvhdx.VIRTUAL_DISK_ID, wvhdx.FILE_PARAMETERS][value]
